@@ -40,6 +40,11 @@ def run(ctx: Ctx):
     from . import c05
 
     c05.order_inputs_payload(ctx)
+    from . import c09
+
+    # "ids that name nothing are ignored" in an explicit order: a stale key (unknown string, out-of-range or NEGATIVE position)
+    # of an array dimension must not resolve to an item - wrapped around to the last item it moves that item
+    c09.stale_reference_table(ctx, "explicit-order.stale-reference")
     from .common import id_truthiness
 
     id_truthiness(ctx)
